@@ -36,6 +36,9 @@ type Violation struct {
 	Msg    string          `json:"msg"`
 	Case   json.RawMessage `json:"case"`
 	Replay string          `json:"-"`
+	// Observed: the failure was the death of a worker process (fatal runtime error); it is reported as observed
+	// and not re-executed five times inside this process, which it could take down.
+	Observed bool `json:"-"`
 }
 
 type Check struct {
@@ -208,6 +211,16 @@ func (c *Ctx) Violate(key, msg string, cas interface{}) {
 	c.violations[key] = &Violation{Key: key, Msg: msg, Case: raw}
 }
 
+// ViolateObserved records a failure that was observed as the death of a worker process.
+func (c *Ctx) ViolateObserved(key, msg string, cas interface{}) {
+	c.Violate(key, msg, cas)
+	c.mu.Lock()
+	if v := c.violations[key]; v != nil {
+		v.Observed = true
+	}
+	c.mu.Unlock()
+}
+
 func (c *Ctx) ViolationCount() int64 { return atomic.LoadInt64(&c.nviol) }
 
 // ParallelFor runs f(i) for i in [0,n) on all cores; stops handing out work after the deadline.
@@ -294,6 +307,16 @@ type replayFile struct {
 // RunCheck runs a check completely and returns the process exit code.
 func RunCheck(ch *Check, tier string) int {
 	c := NewCtx(ch.ID, tier)
+	if os.Getenv("VERIF_MEMTRACE") != "" {
+		go func() {
+			for {
+				time.Sleep(10 * time.Second)
+				var m runtime.MemStats
+				runtime.ReadMemStats(&m)
+				fmt.Fprintf(os.Stderr, "MEM sys=%dMB heapSys=%dMB heapInuse=%dMB heapReleased=%dMB heapIdle=%dMB stack=%dMB goroutines=%d\n", m.Sys>>20, m.HeapSys>>20, m.HeapInuse>>20, m.HeapReleased>>20, m.HeapIdle>>20, m.StackSys>>20, runtime.NumGoroutine())
+			}
+		}()
+	}
 	func() {
 		defer func() {
 			if r := recover(); r != nil {
@@ -322,7 +345,7 @@ func (c *Ctx) finish(ch *Check) int {
 	for _, k := range keys {
 		v := c.violations[k]
 		// re-execute 5x: the same case must fail every time
-		if ch.Replay != nil {
+		if ch.Replay != nil && !v.Observed {
 			fails := 0
 			for i := 0; i < 5; i++ {
 				rc := NewCtx(c.ID, c.Tier)
